@@ -1321,6 +1321,12 @@ def ExactPair (a b c d : V2 K) (eps : K) : Prop :=
   (eps ≤ |crossDir a b c d| ∧ (1 / 2 ^ 52 : K) < |crossDir a b c d|) ∨
   (crossDir a b c d = 0 ∧ area2 a b c = 0 ∧ a ≠ b ∧ c ≠ d)
 
+/-- non-vacuity of `ExactPair`: a proper crossing, and an exactly collinear non-degenerate pair -/
+example : ExactPair (⟨0,0⟩ : V2 ℚ) ⟨2,0⟩ ⟨1,-1⟩ ⟨1,1⟩ (1/1000) ∧ ExactPair (⟨0,0⟩ : V2 ℚ) ⟨2,0⟩ ⟨1,0⟩ ⟨3,0⟩ (1/1000) := by
+  constructor
+  · left; unfold crossDir; norm_num
+  · right; refine ⟨by unfold crossDir; norm_num, by unfold area2; norm_num, by simp, by simp⟩
+
 /-- **soundness of the intersection items of `convex_polygons_intersection_with_tolerances`** (exact arithmetic, every
 input — no convexity or orientation hypothesis —, every `eps ≥ 0`).  Every pair handed to `out` is a vertex item
 (`OnVertex(b)` of an existing vertex of `poly1` resp. `poly2`) or a pair `(Some(loc1), Some(loc2))` attached to an existing
@@ -1368,6 +1374,32 @@ theorem cvx_items_on_both_boundaries_partial (poly1 poly2 : Array (V2 K)) (eps :
         exact ⟨e2, e5, e6⟩
   · exact Or.inl h
   · exact Or.inr (Or.inl h)
+
+/-- **soundness of `convex_polygons_intersection_points_with_tolerances`, point form** (exact arithmetic, `eps ≥ 0`, every
+input): every output point is a vertex of `poly1`, a vertex of `poly2`, or a point attached to an existing edge of each
+polygon which — whenever the two edges properly cross or are exactly collinear — lies on both closed edges.
+Same stated gap as `cvx_items_on_both_boundaries_partial`. -/
+theorem cvx_points_sound_partial (poly1 poly2 : Array (V2 K)) (eps : K) (he : 0 ≤ eps) :
+    letI := fieldNum K sq
+    ∀ pt ∈ convexPolygonsIntersectionPoints poly1 poly2 eps,
+      (∃ b, b < poly1.size ∧ pt = ppt poly1 b) ∨ (∃ b, b < poly2.size ∧ pt = ppt poly2 b) ∨
+      ∃ a1 b1 a2 b2, IsPolyEdge poly1.size a1 b1 ∧ IsPolyEdge poly2.size a2 b2 ∧
+        (ExactPair (ppt poly1 a1) (ppt poly1 b1) (ppt poly2 a2) (ppt poly2 b2) eps →
+          OnSeg (ppt poly1 a1) (ppt poly1 b1) pt ∧ OnSeg (ppt poly2 a2) (ppt poly2 b2) pt) := by
+  intro pt hpt
+  unfold convexPolygonsIntersectionPoints at hpt
+  rw [Array.mem_filterMap] at hpt
+  obtain ⟨it, hit, hf⟩ := hpt
+  rcases cvx_items_on_both_boundaries_partial sq poly1 poly2 eps he it hit with
+    ⟨b, hb, rfl⟩ | ⟨b, hb, rfl⟩ | ⟨a1, b1, a2, b2, l1, l2, he1, he2, rfl, hgeo⟩
+  · simp only [Option.some.injEq] at hf
+    exact Or.inl ⟨b, hb, by rw [← hf]; rfl⟩
+  · simp only [Option.some.injEq] at hf
+    exact Or.inr (Or.inl ⟨b, hb, by rw [← hf]; rfl⟩)
+  · simp only [Option.some.injEq] at hf
+    refine Or.inr (Or.inr ⟨a1, b1, a2, b2, he1, he2, fun hex => ?_⟩)
+    obtain ⟨_, h2, h3⟩ := hgeo hex
+    rw [← hf]; exact ⟨h2, h3⟩
 
 /-- the polygon is convex: every vertex is on the closed left of every directed edge (counter-clockwise) or every vertex
 is on the closed right of every directed edge (clockwise) -/
